@@ -57,14 +57,14 @@ type viol struct {
 }
 
 type obs struct {
-	Result string // ok | refused | panic
-	Err    string
-	Viols  []viol
-	Leaf   string // fingerprint summary of the matched signer
-	Hash   crypto.Hash
+	Result  string // ok | refused | panic
+	Err     string
+	Viols   []viol
+	Leaf    string // fingerprint summary of the matched signer
+	Hash    crypto.Hash
 	OutSize int64
 	Parts   map[string]int64 // size fingerprint: ZIP member -> uncompressed size, or "" -> file size
-	Info    string // SigInfo / Package strings of the matched signatures
+	Info    string           // SigInfo / Package strings of the matched signatures
 	// Explicit: content sniffing did not recognise the (lenient) shape and the
 	// type was named explicitly
 	Explicit bool
